@@ -733,6 +733,34 @@ func c13RunASCII(c *Ctx, k c13Case, ts []c13Tri, text []byte, key string) {
 	}
 }
 
+// c13IndentSweep: well-formed ASCII files whose first line is indented (as in the shipped bottle.stl), at every file length
+// modulo 50 (blank lines appended): no length may make the loader take such a file for a binary one.
+func c13IndentSweep(c *Ctx) {
+	nl := c.Pick(3, 30)
+	for li := 0; li < nl; li++ {
+		r := c.Rng("indent-sweep", li)
+		ts := c13GenList(r, r.IR(1, 12), li%len(c13Classes))
+		var sb strings.Builder
+		sb.WriteString(pickOne(r, []string{" ", "  ", "\t", "   "}) + "solid part\n")
+		for _, t := range ts {
+			sb.WriteString("  facet normal 0 0 0\n    outer loop\n")
+			for v := 0; v < 3; v++ {
+				fmt.Fprintf(&sb, "      vertex %s %s %s\n", strconv.FormatFloat(t[v][0], 'g', -1, 64), strconv.FormatFloat(t[v][1], 'g', -1, 64), strconv.FormatFloat(t[v][2], 'g', -1, 64))
+			}
+			sb.WriteString("    endloop\n  endfacet\n")
+		}
+		sb.WriteString(" endsolid part\n")
+		base := sb.String()
+		for pad := 0; pad < 50; pad++ {
+			text := []byte(base + strings.Repeat("\n", pad))
+			k := c13Case{Index: 8000000 + li*50 + pad, N: len(ts), Class: c13Classes[li%len(c13Classes)]}
+			c13RunASCII(c, k, ts, text, "")
+			c.Eval(1)
+		}
+	}
+	c.Count("indented_header_files_at_every_length_mod_50", int64(nl*50))
+}
+
 func c13RunList(c *Ctx, i, maxLen int, st *c13Stats) {
 	r := c.Rng("list", i)
 	cls := i % len(c13Classes)
@@ -828,6 +856,7 @@ func checkC13(c *Ctx) {
 	restore := c13FilterStdout()
 	var total c13Stats
 	c13RunPinned(c, &total)
+	c13IndentSweep(c)
 	nBig := c.Pick(1, len(c13BigLens))
 	stats := make([]c13Stats, nLists+nBig)
 	parallelFor(nLists+nBig, func(i int) {
